@@ -9,6 +9,23 @@ sys.path.insert(0, VERIF)
 from harness.core import CHECKS  # noqa
 
 TABLE = {
+    "C11": dict(
+        category="exploration", design_ref="3/C11",
+        technique="Hypothesis-generated keys and parameters, export/import round trips judged through an independent strict RFC 7518/8037 JWK parser and `cryptography` number objects, interoperation checks (sign/verify, ECDH), single-mutation generator for malformed JWKs with a must-reject oracle",
+        text="~2800 generated round trips per quick run (every key type/size/curve, special short-coordinate and leading-zero keys weighted in, entered as JWK/PEM/DER/encrypted PEM/generated, "
+             "exported as private/public JWK, PEM, DER with and without password, KeySet, re-imported through the typed class, JWKRegistry and import_key_set) with equality of numbers, "
+             "RFC member formats, returned members, password really applied, signature and ECDH interoperation; ~8000 malformed JWKs (one mutation each: delete, retype to every JSON type, "
+             "use/key_ops contradiction, undecodable base64url, partial CRT, off-curve coordinates, foreign OKP x, oth) must be refused. Exploration over generated cases.",
+        note="trusts /verif/ref/keys.py strict parser and `cryptography` number objects; padded base64url and benign labels are DONT_CARE; RSA 4096 only in the thorough tier",
+    ),
+    "C13": dict(
+        category="exploration", design_ref="3/C13",
+        technique="Hypothesis-generated keys in 8 representations compared with an independent RFC 7638 implementation (differential + metamorphic: all representations agree), rule-based state machine for the kid history",
+        text="~2600 generated keys per quick run, each in up to 8 representations (private/public JWK, shuffled JWK with optional members, PEM, DER, explicit params) and 3 digests: thumbprint() "
+             "must equal the reference RFC 7638 value and all representations must agree; 700 generated histories x 12 steps (ensure_kid, KeySet(), as_dict with overriding params, caller edits "
+             "of exported dicts, PEM export, thumbprint) check that an auto kid equals the thumbprint and no assigned kid ever changes. Exploration over generated cases.",
+        note="reference thumbprint: own canonical JSON + hashlib from the key numbers (self-tested on RFC 7638 3.1)",
+    ),
     "C14": dict(
         category="exploration", design_ref="3/C14",
         technique="Hypothesis-generated key sets / kid states with a model oracle; consumed tokens minted by the independent reference under the named key or (negative) under another key of the set carrying the same label; produced tokens judged by the reference with every key of the set",
